@@ -5,8 +5,15 @@ import json, os
 
 ROOT = os.path.dirname(os.path.dirname(os.path.abspath(__file__)))
 
-BASELINE = ("FAULT-FREE BASELINE of the simulation: no fault or schedule space is searched for this property "
-            "(it has none in its quantifier). ")
+BASELINE = ("NO TRANSPORT FAULT applies to this property (its quantifier has none: it speaks of values handed to the "
+            "encoder, not of traffic); injected are execution environments and Reader/Writer seam behaviours only. ")
+
+ENV = (" Execution environments (every check, one case in ten): the case runs right after an operation the library "
+       "refused on the same thread (caught panic of an oversize AVP / message / hide, a writer that is full, a rejected "
+       "decode) and/or inside a destructor while the thread unwinds from an unrelated panic; the environment is part of "
+       "the replay case. Seams: re-entrant readers and writers (the seam uses the library itself in the middle of a "
+       "request), writers that report positions beyond 2^32, messages followed by 64 KiB or more, sparse readers of "
+       "astronomical length, read faults (declined bytes() requests) under a narrow relaxed oracle.")
 
 P = {
  "C01": ("fault_enumeration", "5/C01",
@@ -18,11 +25,11 @@ P = {
    "Every call the decoder issues to a conforming reader is checked against the reader's own cursor, and results must agree across back-ends (T=&[u8] and T=Vec<u8>). Quantifies over programs by sampling three reader implementations.",
    "reader back-ends are conforming; reveal() cannot take a monitored reader (covered in C13 + Miri sample)"),
  "C03": ("exploration", "5/C03",
-   "seeded swarm workload, fault-free configuration: real encoder -> simulator-owned writer -> unaltered delivery -> strict real decoder through a PRNG reader back-end; oracle decode(encode(m)) = m",
+   "seeded swarm workload without transport faults: real encoder -> simulator-owned writer -> unaltered delivery -> strict real decoder through a PRNG reader back-end; oracle decode(encode(m)) = m",
    BASELINE + "Seeded generator over all 39 AVP kinds + hidden, value extremes, boundary sizes (249-257, 1012-1017 octet payloads, messages up to 65535), varied reader/writer back-ends and prefixes.",
    "field-by-field comparison through public fields; bitmask word observed through AVP::write"),
  "C04": ("exploration", "5/C04",
-   "seeded workload, fault-free configuration: complete L/S/O/P x offset x size lattice in every run plus PRNG data messages; oracle decode(encode(d)) = d'",
+   "seeded workload without transport faults: complete L/S/O/P x offset x size lattice in every run plus PRNG data messages; oracle decode(encode(d)) = d'",
    BASELINE + "All 16 flag combinations x boundary offsets at rotating boundary payload sizes in every run, PRNG ids/payloads, 65535-octet totals.",
    "length, when present, counts from the first flag octet (property text)"),
  "C05": ("exploration", "5/C05",
@@ -30,7 +37,7 @@ P = {
    "Differential check against an independent reference decoder on canonical, non-canonical and faulted traffic (about half accepted): accept iff spec accepts, values equal, unnamed bits irrelevant.",
    "trusted base: the reference model in sim/src/model (RFC 2661 + the crate's bit numbering); error identity not compared here"),
  "C06": ("exploration", "5/C06",
-   "seeded swarm workload, fault-free configuration: real encoder output compared byte for byte with the reference encoder; bitmask constructors for all argument pairs",
+   "seeded swarm workload without transport faults: real encoder output compared byte for byte with the reference encoder; bitmask constructors for all argument pairs",
    BASELINE + "Byte-exact comparison with an independent reference encoder over the swarm workload, incl. stale data lengths and the bitmask constructors.",
    "trusted base: reference encoder; capability-bit assignment calibrated from the public accessors"),
  "C07": ("exploration", "5/C07",
@@ -50,11 +57,11 @@ P = {
    "For every accepted delivery the re-encoding must decode strictly to the same value and re-encode to the same octets.",
    "self-relative; model only produces inputs"),
  "C11": ("exploration", "5/C11",
-   "seeded two-party workload, fault-free configuration: hide -> (optionally wire) -> reveal with shared secret and random vector; block-count / residue lattice",
+   "seeded two-party workload without transport faults: hide -> (optionally wire) -> reveal with shared secret and random vector; block-count / residue lattice",
    BASELINE + "All 39 kinds, secret lengths 0-64, block counts 1,2,3,4,63, residues 0/1/15, direct and via encode/decode.",
    "self-relative"),
  "C12": ("exploration", "5/C12",
-   "seeded two-party workload, fault-free configuration: real hide vs reference hide (own MD5) octet for octet, reference hide -> real reveal, reveal vs reference reveal",
+   "seeded two-party workload without transport faults: real hide vs reference hide (own MD5) octet for octet, reference hide -> real reveal, reveal vs reference reveal",
    BASELINE + "Interoperability with an independent implementation of RFC 2661 s4.3 over the same lattice as C11.",
    "trusted base: model MD5 (RFC 1321 vectors checked at start-up) and s4.3 construction; either original-length convention accepted if consistent"),
  "C13": ("exploration", "5/C13",
@@ -95,7 +102,7 @@ for pid in sorted(P):
         "engine": "rl2tp-dst",
         "level_claimed": {"category": cat, "text": text, "design_ref": f"DESIGN.md section {ref}"},
         "level_note": note,
-        "technique": "deterministic simulation with fault injection: " + tech,
+        "technique": "deterministic simulation with fault injection: " + tech + ENV,
     })
 
 manifest = {
@@ -119,7 +126,7 @@ manifest = {
         {"property_id": "C16", "reason": "Six finite lookup tables and two pure accessors: no stream, peer, fault, history, schedule or configuration; the property text itself says it is decided completely by enumerating 6 x 65536 values, which is exhaustive testing, a different technique. Wire-visible half exercised incidentally by C05/C06/C20, not claimed."},
         {"property_id": "C17", "reason": "Pure functions on a 4-element domain per kind (constructor/accessor naming never touches a stream) plus 32-bit preservation that is already an instance of C03/C05/C06/C10; decided completely only by enumeration, a different technique. Its pinned-tree defect (Bearer Capabilities) surfaced under C06 and is repaired."},
     ],
-    "notes": "All checks honour VERIF_SEED and VERIF_TIER; exit 0 clean, 1 violation (VIOLATION line + replay file under /verif/replays), 2 harness error. C03, C04, C06, C07, C11, C12 are the fault-free baseline of the simulation and say so in level_claimed.text.",
+    "notes": "All checks honour VERIF_SEED and VERIF_TIER; exit 0 clean, 1 violation (VIOLATION line + replay file under /verif/replays), 2 harness error. C03, C04, C06, C07, C11, C12 have no transport-fault dimension (level_claimed.text says so); their injected dimensions are execution environments and seam behaviours.",
 }
 with open(os.path.join(ROOT, "MANIFEST.json"), "w") as f:
     json.dump(manifest, f, indent=1)
